@@ -1,0 +1,62 @@
+// Copyright 2026 The Go Authors. All rights reserved.
+// Use of this source code is governed by a BSD-style
+// license that can be found in the LICENSE file.
+
+//go:build verif
+
+package ssh
+
+// Verification hooks (build tag "verif" only): access to the unexported
+// message structs of messages.go and to the packet decoder for model-based
+// conformance checking of the wire codec.
+
+// VerifMsgPrototypes returns, by type name, a pointer to a zero value of
+// every message struct declared in messages.go.
+func VerifMsgPrototypes() map[string]interface{} {
+	return map[string]interface{}{
+		"disconnectMsg":            new(disconnectMsg),
+		"kexInitMsg":               new(kexInitMsg),
+		"kexDHInitMsg":             new(kexDHInitMsg),
+		"kexECDHInitMsg":           new(kexECDHInitMsg),
+		"kexECDHReplyMsg":          new(kexECDHReplyMsg),
+		"kexDHReplyMsg":            new(kexDHReplyMsg),
+		"kexDHGexGroupMsg":         new(kexDHGexGroupMsg),
+		"kexDHGexInitMsg":          new(kexDHGexInitMsg),
+		"kexDHGexReplyMsg":         new(kexDHGexReplyMsg),
+		"kexDHGexRequestMsg":       new(kexDHGexRequestMsg),
+		"serviceRequestMsg":        new(serviceRequestMsg),
+		"serviceAcceptMsg":         new(serviceAcceptMsg),
+		"extInfoMsg":               new(extInfoMsg),
+		"userAuthRequestMsg":       new(userAuthRequestMsg),
+		"userAuthSuccessMsg":       new(userAuthSuccessMsg),
+		"userAuthFailureMsg":       new(userAuthFailureMsg),
+		"userAuthBannerMsg":        new(userAuthBannerMsg),
+		"userAuthInfoRequestMsg":   new(userAuthInfoRequestMsg),
+		"channelOpenMsg":           new(channelOpenMsg),
+		"channelDataMsg":           new(channelDataMsg),
+		"channelOpenConfirmMsg":    new(channelOpenConfirmMsg),
+		"channelOpenFailureMsg":    new(channelOpenFailureMsg),
+		"channelRequestMsg":        new(channelRequestMsg),
+		"channelRequestSuccessMsg": new(channelRequestSuccessMsg),
+		"channelRequestFailureMsg": new(channelRequestFailureMsg),
+		"channelCloseMsg":          new(channelCloseMsg),
+		"channelEOFMsg":            new(channelEOFMsg),
+		"globalRequestMsg":         new(globalRequestMsg),
+		"globalRequestSuccessMsg":  new(globalRequestSuccessMsg),
+		"globalRequestFailureMsg":  new(globalRequestFailureMsg),
+		"windowAdjustMsg":          new(windowAdjustMsg),
+		"userAuthPubKeyOkMsg":      new(userAuthPubKeyOkMsg),
+		"userAuthGSSAPIResponse":   new(userAuthGSSAPIResponse),
+		"userAuthGSSAPIToken":      new(userAuthGSSAPIToken),
+		"userAuthGSSAPIMIC":        new(userAuthGSSAPIMIC),
+		"userAuthGSSAPIErrTok":     new(userAuthGSSAPIErrTok),
+		"userAuthGSSAPIError":      new(userAuthGSSAPIError),
+		"pingMsg":                  new(pingMsg),
+		"pongMsg":                  new(pongMsg),
+	}
+}
+
+// VerifMsgDecode runs the packet decoder.
+func VerifMsgDecode(packet []byte) (interface{}, error) {
+	return decode(packet)
+}
